@@ -26,7 +26,7 @@ def db(x):
         return 10 * np.log10(x)
 
 
-@subcheck(SUBCHECKS, 'si_sdr', quick=900, thorough=15000)
+@subcheck(SUBCHECKS, 'si_sdr', quick=1800, thorough=15000)
 def si_sdr(d, ctx):
     from pb_bss.evaluation.module_si_sdr import si_sdr as f
     lead = tuple(d.int(1, 3) for _ in range(d.int(0, 2)))
@@ -82,7 +82,7 @@ def _check_dict(ctx, fn, args, kw, base, clause):
                     clause + '-dict-values', k)
 
 
-@subcheck(SUBCHECKS, 'input_sxr', quick=800, thorough=13000)
+@subcheck(SUBCHECKS, 'input_sxr', quick=1600, thorough=13000)
 def input_sxr(d, ctx):
     from pb_bss.evaluation.sxr_module import input_sxr as f
     K, D = d.int(1, 4), d.int(1, 5)
@@ -127,7 +127,7 @@ def input_sxr(d, ctx):
     ctx.nontrivial(K >= 2)
 
 
-@subcheck(SUBCHECKS, 'output_sxr', quick=900, thorough=15000)
+@subcheck(SUBCHECKS, 'output_sxr', quick=1800, thorough=15000)
 def output_sxr(d, ctx):
     from pb_bss.evaluation.sxr_module import output_sxr as f
     Ks = d.int(1, 4)
@@ -194,7 +194,7 @@ def output_sxr(d, ctx):
     ctx.nontrivial(Ks >= 2)
 
 
-@subcheck(SUBCHECKS, 'set_get_snr', quick=500, thorough=8000, fuzz=3000)
+@subcheck(SUBCHECKS, 'set_get_snr', quick=1000, thorough=8000, fuzz=3000)
 def set_get_snr(d, ctx):
     from pb_bss.evaluation.sxr_module import get_snr, set_snr
     lead = tuple(d.int(1, 3) for _ in range(d.int(0, 2)))
